@@ -385,6 +385,22 @@ PROPS = {
                         "fmt::Arguments template bytes of the pinned nightly (n < 0x80: n literal bytes, 0xC0: next argument)",
                         "a violated obligation is reported as VIOLATION only when one of the 19 native probes (the real `rsass` binary against compile_scss_path, 5 formats, 1..3 files, failing inputs, --load-path layouts) disagrees"],
     },
+    "C07": {
+        "engines": ["E2 mirsym+z3/cvc5"],
+        "e2": True,
+        "functions": [
+            ("rsass::output::CssData::into_buffer (framing tail)", "output/cssdata.rs", r"pub fn into_buffer"),
+        ],
+        "bounds": {"quick": "the written buffer is ARBITRARY: symbolic length (any u64 up to isize::MAX), symbolic last 10 bytes, symbolic is_ascii, symbolic style; up to 4 trailing newlines "
+                            "(the trimming loop unrolled 6 times; longer runs of newlines end at the unwinding bound and are outside); every path decided by z3 and cvc5",
+                   "thorough": "the same with up to 7 trailing newlines"},
+        "outside": "what the item writers put into the buffer (balanced braces, no line breaks inside compressed output: CssBuf::start_block / end_block / add_one and the writers of rules, "
+                   "at-rules, comments and values are not executed); that is_ascii() is true exactly for ASCII content (std); more trailing newlines than the bound",
+        "stubs": ["CssBuf::take returns the arbitrary buffer (no items are written)", "Vec<u8> is modelled by its length and its last 10 bytes: last / pop / push / is_empty / len / extend are exact on that view",
+                  "<[u8]>::is_ascii is a symbolic boolean", "Format::is_compressed is a symbolic boolean"],
+        "assumptions": ["rustc nightly MIR text = the code that is compiled", "mirsym's MIR subset semantics (/verif/mirsym/sym.py)", "z3 5.1 and cvc5 1.0.3 (every query on both)",
+                        "a violated obligation is reported as VIOLATION only when one of the 26 native framing probes (13 stylesheets x 2 styles, real output checked for one final newline and charset / BOM iff non-ASCII) disagrees"],
+    },
     "C18": {
         "engines": ["E2 mirsym+z3/cvc5"],
         "e2": True,
